@@ -108,6 +108,53 @@ def check(repo: Path = None) -> list[Obligation]:
                         backend='syntactic', source=f'L{c.lineno}',
                         detail='' if ok else f'{f.name} calls {callee} at line {c.lineno} with {o}='
                                              f'{ast.unparse(v) if v is not None else "<default>"} instead of its own {o}'))
+    obs += check_registry(repo)
+    return obs
+
+
+def check_registry(repo: Path) -> list[Obligation]:
+    """register_pytree_node_class (optree/registry.py) is a thin wrapper: every decorator it returns
+    (functools.partial of itself) and its final call of register_pytree_node must carry the caller's path_entry_type and a
+    namespace.  path_entry_type is re-bound once, to the class default, only when it is None - that rebinding is the
+    documented defaulting rule and does not make the forwarding undecided."""
+    mod = 'optree/registry.py'
+    path = repo / mod
+    obs: list[Obligation] = []
+    if not path.exists():
+        return [Obligation(id=f'{mod}::file-exists', function=mod, cls='X', status='unknown', detail='module missing')]
+    tree = ast.parse(path.read_text())
+    defs = [n for n in tree.body if isinstance(n, ast.FunctionDef) and n.name == 'register_pytree_node_class']
+    f = defs[-1] if defs else None                 # the implementation follows its @overload stubs
+    if f is None:
+        return [Obligation(id=f'{mod}::register_pytree_node_class::function-exists', function=mod, cls='X', status='unknown',
+                           detail='function missing (contract drift)')]
+    counts: dict[str, int] = {}
+    for c in ast.walk(f):
+        if not isinstance(c, ast.Call):
+            continue
+        fn = c.func
+        target = None
+        if isinstance(fn, ast.Attribute) and fn.attr == 'partial' and c.args and isinstance(c.args[0], ast.Name) \
+                and c.args[0].id == 'register_pytree_node_class':
+            target = 'partial(register_pytree_node_class)'
+        elif isinstance(fn, ast.Name) and fn.id in ('register_pytree_node', 'register_pytree_node_class'):
+            target = fn.id
+        if target is None:
+            continue
+        kws = {k.arg: k.value for k in c.keywords}
+        for o, accept in (('path_entry_type', ('path_entry_type',)), ('namespace', ('namespace', 'cls'))):
+            v = kws.get(o)
+            ok = isinstance(v, ast.Name) and v.id in accept
+            base = f'{mod}::register_pytree_node_class::IV::forwards-{o}-to-{target}'
+            k = counts.get(base, 0)
+            counts[base] = k + 1
+            obs.append(Obligation(id=base if k == 0 else f'{base}#{k}', function=f'{mod}::register_pytree_node_class', cls='IV',
+                                  status='discharged' if ok else 'failed', backend='syntactic', source=f'L{c.lineno}',
+                                  detail='' if ok else f'register_pytree_node_class builds {target} at line {c.lineno} with {o}='
+                                                       f'{ast.unparse(v) if v is not None else "<not passed>"}'))
+    if not obs:
+        obs.append(Obligation(id=f'{mod}::register_pytree_node_class::IV::has-forwarding-sites', function=mod, cls='IV', status='failed',
+                              backend='syntactic', detail='no partial / register_pytree_node call found'))
     return obs
 
 
